@@ -6,6 +6,7 @@ CONSTANTS
   MethodExcluded = FALSE
   PurgeEvictsLive = TRUE
   ExpiresIgnored = FALSE
+  RejectUnpins = FALSE
   MaxOps = 8
   MaxTimeouts = 1
 VIEW PropView
